@@ -419,6 +419,15 @@ impl LogInnerManager {
             .seek(SeekFrom::Start(self.data_cursor))
             .await?;
         self.data_file.flush().await?;
+        // the last entry is now an older one: report its term, not the removed one's
+        self.last_term = self.header.last_term;
+        if self.msg_count > 0 {
+            if let Ok(logs) = self.read_records(end_index - 1, end_index).await {
+                if let Some(r) = logs.last() {
+                    self.last_term = r.term;
+                }
+            }
+        }
         Ok(())
     }
 
